@@ -48,7 +48,10 @@ ASSUMPTIONS = [
     "promised sample_count, channel_count, sample_rate >= 1 (a zero count is rejected by the reader as a bad header)",
     "theorems about whole files are stated for the canonical header written by `encode` (six mandatory fields, any padding, "
     "any header size that holds them); `*_of_header` variants hold for ANY header that parses to the same fields; "
-    "other field orders / extra fields are tied by correspondence",
+    "other field orders / extra fields / omitted optional fields are tied by correspondence (counted as hypothesis_gap:noncanonical_header)",
+    "whole-file theorems cover dtype=None and, for mu-law / A-law, uint8 / int8; other requested dtypes (widening ints, float64) "
+    "and files with bytes after the promised data are covered by the loop theorem copy_samples_whole_frames + correspondence only",
+    "decimal numbers in the header have at most 4300 digits (CPython's int() limit, modelled) and the header size is at most 2^26 (model's read cap)",
     "bytes are < 256 (hypothesis on the model's List Nat)",
     "header text is ASCII; non-ASCII header bytes, counts that are not positive integers, shorten payloads and reads > 64 MiB answer `unmodelled`",
 ]
@@ -350,6 +353,9 @@ def base_case(r, coding=None, chans=None, count=None, hsize=None, dtype=None, ca
         hsize = r.choice([1024, 1024, 1024, 1025, 1500, 2048, 2048, 3072, 4096, r.randrange(1024, 4097)])
     rate = r.choice([8000, 16000, 20000, 44100, 1])
     lines = canonical_lines(coding, be, chans, count, rate)
+    if not canonical and r.random() < 0.3:  # exactly the files the whole-file theorems speak about
+        canonical = True
+        dtype = dtype or ("none" if coding == "pcm" else r.choice(["none", "none", "u8", "i8"]))
     if not canonical:
         if coding == "pcm" and r.random() < 0.2:
             lines = [ln for ln in lines if not ln.startswith("sample_coding")]  # pcm is the default for 2-byte samples
@@ -360,7 +366,7 @@ def base_case(r, coding=None, chans=None, count=None, hsize=None, dtype=None, ca
         for _ in range(r.choice([0, 0, 1, 3, 6])):
             lines.insert(r.randrange(len(lines) + 1), r.choice(EXTRA_LINES))
     hdr = dict(magic="NIST_1A", size=size_line(hsize) if r.random() < 0.9 or canonical else "%d" % hsize,
-               lines=lines, end=True, pad=32 if canonical else r.choice([32, 32, 0, 10, 65]), total=hsize)
+               lines=lines, end=True, pad=r.choice([32, 32, 0, 10, 65]), total=hsize)
     return dict(kind="valid", coding=coding, be=be, chans=chans, count=count, stored=count, hsize=hsize, rate=rate,
                 dtype=dtype or r.choice(DTYPES), via=r.choice(VIAS), sseed=r.randrange(1 << 30),
                 smode=r.choice(["rand", "ramp"]), hdr=hdr, wellformed=True)
@@ -413,10 +419,12 @@ def gen_bigframe(r):
     return c
 
 
-def raw_case(b, note, dtype="none", via="bytesio", expect=None):
+def raw_case(b, note, dtype="none", via="bytesio", expect=None, gap=False):
     c = dict(kind="badhdr", note=note, hex=b.hex(), dtype=dtype, via=via, wellformed=False)
     if expect:
         c["expect"] = expect
+    if gap:  # inside the property's quantifier, outside the theorems' hypotheses (sample_count = 0)
+        c["gap"] = True
     return c
 
 
@@ -464,7 +472,7 @@ def gen_badhdr_all(r):
     out.append(raw_case(mk([ln for ln in base if not ln.startswith("sample_coding") and not ln.startswith("sample_n_bytes")]),
                         "missing:coding+nbytes (order len 2 implies pcm)"))
     out.append(raw_case(mk([ln.replace("-i 2", "-i 0") if ln.startswith("channel_count") else ln for ln in base]), "zero:channels"))
-    out.append(raw_case(mk([ln.replace("-i 3", "-i 0") if ln.startswith("sample_count") else ln for ln in base]), "zero:count"))
+    out.append(raw_case(mk([ln.replace("-i 3", "-i 0") if ln.startswith("sample_count") else ln for ln in base]), "zero:count", gap=True))
     out.append(raw_case(mk([ln.replace("-i 8000", "-i 0") if ln.startswith("sample_rate") else ln for ln in base]), "zero:rate"))
     out.append(raw_case(mk([ln.replace("-i 2", "-i -2") if ln.startswith("channel_count") else ln for ln in base]), "negative:channels"))
     out.append(raw_case(mk([ln.replace("-i 3", "-i -3") if ln.startswith("sample_count") else ln for ln in base]), "negative:count"))
@@ -547,9 +555,26 @@ def examine(ctx, case, tmp, lines, pend):
         ctx.count("frame_divides_read:%s" % (R % F == 0))
         ctx.count("reads:%d" % min(4, -(-len(data) // R)))
         ctx.count("header_size:%s" % ("1024" if case["hsize"] == 1024 else "multiple" if case["hsize"] % 1024 == 0 else "odd"))
+        # inside the property's quantifier but outside the hypotheses of the whole-file theorems
+        gaps = []
         if data[:4] == b"ajkg":
+            gaps.append("shorten_magic")
+        if len(data) > case["count"] * F:
+            gaps.append("trailing_bytes")
+        h = case["hdr"]
+        if h["lines"] != canonical_lines(case["coding"], case["be"], case["chans"], case["count"], case["rate"]) \
+                or h["size"] != size_line(case["hsize"]) or h["magic"] != "NIST_1A":
+            gaps.append("noncanonical_header")
+        if not (case["dtype"] == "none" or (case["coding"] != "pcm" and case["dtype"] in ("u8", "i8"))):
+            gaps.append("other_dtype")
+        for g in gaps:
+            ctx.count("hypothesis_gap:" + g)
+        if gaps:
             ctx.gap_cases += 1
-            ctx.count("hypothesis_gap:shorten_magic")
+        else:
+            ctx.count("inside_theorem_hypotheses")
+        if data[:4] == b"ajkg":
+            pass
         else:
             want = expectation(case, items, data)
             if want is None:
@@ -566,6 +591,9 @@ def examine(ctx, case, tmp, lines, pend):
                         tags=dict(clause=clause, mono=case["chans"] == 1,
                                   frame_divides_read=(R % F == 0), big_frame=F > R),
                     )
+    elif case.get("gap"):
+        ctx.gap_cases += 1
+        ctx.count("hypothesis_gap:" + case["note"])
     elif case.get("expect"):
         ctx.count("oracle:bad_header")
         if impl != case["expect"]:
@@ -673,7 +701,8 @@ def check_encoder(ctx, driver):
         c = base_case(r, canonical=True, count=r.randrange(1, 12), chans=r.choice([1, 2, 3, 5]))
         b, items, _ = build(c)
         pad = c["hsize"] - (bytes(b).index(b"end_head\n") + 9)
-        lines.append("enc %s %d %d %d %d %d %d 32 %s" % (c["coding"], c["be"], c["chans"], c["rate"], c["hsize"], c["count"], pad,
+        lines.append("enc %s %d %d %d %d %d %d %d %s" % (c["coding"], c["be"], c["chans"], c["rate"], c["hsize"], c["count"], pad,
+                                                     c["hdr"]["pad"],
                                                      ",".join(map(str, items.tolist())) if len(items) else "-"))
         want.append(b.hex())
     outs = driver.run(lines)
@@ -718,7 +747,8 @@ def run(ctx, driver):
         stream = []
         for c in gen_badhdr_all(r):
             stream.append(c)
-        n = ctx.scale(520, 6000)
+        # (a broken obligation puts the context in search mode = 4x the cases; not needed once a failing input is known)
+        n = 520 if (ctx.tier != "thorough" and ctx.violations) else ctx.scale(520, 6000)
         gens = [(gen_valid, 0.36), (gen_trunc, 0.30), (gen_extra, 0.08), (gen_bigframe, 0.05), (gen_hdrfuzz, 0.19),
                 (gen_shnmagic, 0.02)]
         for _ in range(n):
